@@ -275,7 +275,7 @@ def run(tier):
     # ---- check_minimal_specification as a specified outcome: unused data / unused overriding columns
     import minimal
 
-    for d_ in dates[: (1 if quick else 4)]:
+    for d_ in [d for d in dates if d >= "2009-01-01"][: (1 if quick else 4)]:      # (the target sets used here need rules that exist from 2009)
         df_, P_ = make_population(d_, rnd, k=2)
         df_["kindergeld_m"] = 100.0
         df_["zzz_unused"] = 1.0
